@@ -64,7 +64,11 @@ def angles(tier):
 
 
 def norms(tier):
-    return [1e-6, 1.0, 1e6] if tier != 'thorough' else [1e-6, 1e-3, 1.0, 1e3, 1e6]
+    # the near-unit lengths sit on both sides of any "is it already normalised?" tolerance
+    near_unit = [1.0 - 1e-6, 1.0 + 3e-6, 1.0 + 1e-9]
+    if tier != 'thorough':
+        return [1e-6, 1.0, 1e6] + near_unit
+    return [1e-6, 1e-3, 1.0, 1e3, 1e6] + near_unit + [1.0 - 1e-4, 1.0 + 1e-12, 1.0 + 1e-3]
 
 
 def lattice(tier):
@@ -100,7 +104,7 @@ class C17(Check):
     level = 'exploration'
     rule = ('rotation case = (axis, axis norm, angle) and (axis, norm, angle pair) for the composition law; '
             'frame case = (p0, p1, p2, offset, scale) for every ordered lattice triple with p0 != p2, plus '
-            '(integer direction, position of the middle point on the line, offset, scale); distinct by '
+            '(integer direction, position of the middle point on the line, offset, scale, input form list/(3,3) array); distinct by '
             'descriptor; non-trivial = rotation with sin or cos term active (angle != 0) / every frame '
             '(the frame is always computed); collinear and coincident-middle triples are counted per class')
     technique = ('exhaustive enumeration of an axis x norm x angle grid and of every ordered point triple of an '
@@ -254,13 +258,18 @@ class C17(Check):
         offs = offsets(seed)
         oi = [case['off']] if 'off' in case else range(len(offs))
         sc = [case['scale']] if 'scale' in case else SCALES
+        forms = [case['form']] if 'form' in case else ('list', 'array', 'farray')
         for o in oi:
-            for s in sc:
-                d = dict(case, off=o, scale=s)
+            for s, form in itertools.product(sc, forms):
+                d = dict(case, off=o, scale=s, form=form)
                 pts = [q0 * s + offs[o], q1 * s + offs[o], q2 * s + offs[o]]
                 keep = [p.copy() for p in pts]
+                # the three points as a list of vectors, as one (3, 3) float array, or Fortran-ordered
+                arg = pts if form == 'list' else (np.array(pts) if form == 'array' else np.asfortranarray(np.array(pts)))
+                if form != 'list':
+                    pts = [arg[0], arg[1], arg[2]]
                 try:
-                    base, origin = calcule_base(pts)
+                    base, origin = calcule_base(arg)
                     B = np.array([np.asarray(v, float) for v in base])
                     origin = np.array(origin, float)
                 except Exception as exc:
